@@ -1,9 +1,8 @@
 /-
-C20 (a): `len` after the fix 3d50aab (Put counts an element only when its slot was empty, the clean-up loop of Run
-removes what other writers applied): for EVERY interleaving — stale heights, external additions, Discard — `len`
-never exceeds the number of occupied slots, so `LastQueued` never under-reports the free capacity (the old
-upward drift is gone). It can still fall below it: Run's second lock section counts down also when its slot was
-re-used meanwhile (Props/C20.lean, `queue_len_undercount_witness`).
+C20 (a): `len` after the fixes 3d50aab (Put counts an element only when its slot was empty, the clean-up loop of
+Run removes what other writers applied) and 6d1ab5f (Run's second lock section counts down only when the slot
+still holds the applied element): for EVERY interleaving — stale heights, duplicates, external additions,
+Discard — `len` IS the number of occupied slots, so `LastQueued` reports the true free capacity.
 -/
 import NeoModel.Proofs.QueueNoExt
 namespace NeoModel.Queue
@@ -52,12 +51,12 @@ theorem occN_none (n : Nat) : occN (fun _ => none) n = 0 := by
   | zero => rfl
   | succ n ih => simp [occN, ih]
 
-/-- `len` does not exceed the number of occupied slots. -/
-def NoOver (s : State) : Prop := s.len ≤ (occN s.ring s.cap : Int)
+/-- `len` is the number of occupied slots. -/
+def NoOver (s : State) : Prop := s.len = (occN s.ring s.cap : Int)
 
 theorem noOver_cleanup (cap : Nat) (hc : 0 < cap) (n i : Nat) (ring : Nat → Option Elem) (len : Int)
-    (h : len ≤ (occN ring cap : Int)) :
-    (cleanup cap n i ring len).2 ≤ (occN (cleanup cap n i ring len).1 cap : Int) := by
+    (h : len = (occN ring cap : Int)) :
+    (cleanup cap n i ring len).2 = (occN (cleanup cap n i ring len).1 cap : Int) := by
   induction n generalizing i ring len with
   | zero => simpa [cleanup] using h
   | succ n ih =>
@@ -116,13 +115,13 @@ theorem noOver_apply (s : State) (a : Act) (hi : Inv s) (hx : NoOver s) : NoOver
         have := (hi.pcB b pos (.inr hpc)).1
         rw [← this]; exact posOf_lt _ _ hi.cap_pos
       simp only [finish]
-      split
-      · rename_i hb
+      by_cases hb : s.ring pos = some b
+      · simp only [hb, if_true]
         have hcount := occN_setSlot s.ring pos none s.cap hpos
         rw [hb] at hcount
         simp only [Option.isSome_some, if_true, Option.isSome_none, Bool.false_eq_true, if_false] at hcount
         omega
-      · omega
+      · simp only [hb, if_false]; exact hx
     · exact hx
 
 theorem exec_cap (s : State) (as : List Act) : (exec s as).cap = s.cap := by
